@@ -191,9 +191,7 @@ def _match(exp, out, env, W):
                 for x in t_:
                     coll0(x)
         coll0(out[1])
-        if not labels:
-            return None
-        return any(exp[1] in l for l in labels) and not any(bad in l for bad in exp[2:] for l in labels)
+        return _ret_call_verdict(exp, labels)
     if out[0] == "opaque" or out[0] == "unknown":
         return None
     if kind == "panic":
@@ -247,9 +245,7 @@ def _match(exp, out, env, W):
                 for x in t_:
                     coll(x)
         coll(v)
-        if not labels:
-            return False
-        return any(exp[1] in l for l in labels) and not any(bad in l for bad in exp[2:] for l in labels)
+        return _ret_call_verdict(exp, labels)
     if kind == "pred":
         if val is guards.OPAQUE:
             return None
@@ -278,6 +274,16 @@ def _match(exp, out, env, W):
             return None
         return cur == exp[1]
     raise ValueError(exp)
+
+
+def _ret_call_verdict(exp, labels):
+    """wanted terminal reached -> True; a terminal from the explicit wrong list reached -> False; any other shape is
+    undecidable (a refactor may route through a new helper: that must never be an alarm)"""
+    if any(bad in l for bad in exp[2:] for l in labels):
+        return False
+    if any(exp[1] in l for l in labels):
+        return True
+    return None
 
 
 def g_row(K, prop, fid, reps, tag="", inst=None, cparams=None):
